@@ -12,7 +12,7 @@ BOUNDS = {
                   events='terminate by A | B | both (same instant and staggered) | close() by A | EOF seen by A; '
                          'at 0/3/6/10/16 scheduler steps after the sends or at the end',
                   liveness='quiescence within 600 scheduler steps; a stuck open session is a violation',
-                  sched='lowest-source-id-first', chunk='CHUNK_SIZE lifted to 2^72'),
+                  sched='lowest-source-id-first', chunk='CHUNK_SIZE lifted to 2^72; reads deliver everything pending, or one message per read'),
     'thorough': dict(bundles='as quick', segments_per_bundle='<= 3', events='as quick, finer positions',
                      sched='plus 1 deviation'),
 }
@@ -35,6 +35,10 @@ def cases(tier):
     for (na, nb) in ((1, 0), (1, 1)):
         for ev in ('closeA', 'eofA'):
             out.append(dict(na=na, nb=nb, kseg=2, ev=ev, dev=0))
+    # one message per TCP read (instead of everything pending)
+    for (na, nb) in ((2, 0), (1, 1)):
+        for ev in ('termA', 'termB', 'termAB'):
+            out.append(dict(na=na, nb=nb, kseg=2, ev=ev, dev=0, rx='msg'))
     if tier == 'thorough':
         out.append(dict(na=1, nb=1, kseg=2, ev='termA', dev=1))
         out.append(dict(na=1, nb=1, kseg=2, ev='termAB', dev=1))
@@ -43,7 +47,7 @@ def cases(tier):
 
 def harness(case, tier):
     c = cur()
-    w = build_world(c)
+    w = build_world(c, rx=case.get('rx', 'all'))
     ok = establish(w)
     c.prove(ok, 'established')
     if not ok:
